@@ -104,7 +104,12 @@ class LiquidError(Exception):
                 break
 
         if target_line_index == -1:
-            raise ValueError("index is out of bounds for the given string")
+            # A position at (or past) the end of the text, as carried by errors
+            # detected at end of input, is reported at the end of the last line.
+            if not lines:
+                return 1, 0, "", "", ""
+            target_line_index = len(lines) - 1
+            index = cumulative_length
 
         # Line number (1-based)
         line_number = target_line_index + 1
